@@ -1,13 +1,13 @@
 #!/bin/bash
 # imports a round-2 seeded change produced by a sub-agent under /tmp/r2/<id>/out into seeded/<id>b
-ID=$1; SRC=/tmp/r2/$ID/out; DST=/verif/seeded/${ID}b
+ID=$1; R=${2:-2}; SUF=b; [ "$R" = 3 ] && SUF=c; SRC=/tmp/r$R/$ID/out; DST=/verif/seeded/${ID}$SUF
 mkdir -p $DST && cp $SRC/patch.diff $SRC/demo.diff $SRC/notes.md $DST/ && cp $SRC/verify.txt $DST/verify.txt 2>/dev/null
-python3 - "$ID" <<'P'
+python3 - "$ID" "$SUF" "$R" <<'P'
 import json,sys
-i=sys.argv[1]; d=f"/verif/seeded/{i}b"
+i=sys.argv[1]; d=f"/verif/seeded/{i}{sys.argv[2]}"
 notes=open(d+"/notes.md").read()
 ver=open(d+"/verify.txt").read().strip().splitlines() if __import__("os").path.exists(d+"/verify.txt") else []
-json.dump({"property": i, "round": 2, "breaks": notes[:700], "confirmed_by": "the sub-agent in its own scratch worktree (cargo test --workspace --offline): patch only 654 pass; patch+demo fails; demo only passes",
+json.dump({"property": i, "round": int(sys.argv[3]), "breaks": notes[:700], "confirmed_by": "the sub-agent in its own scratch worktree (cargo test --workspace --offline): patch only 654 pass; patch+demo fails; demo only passes",
            "verification_output": ver[:8], "origin": "fresh sub-agent given only the property text, a one-line description of the round-1 change to avoid, and a scratch worktree"}, open(d+"/meta.json","w"), indent=1)
 P
 echo imported $DST
